@@ -72,6 +72,12 @@ def _child_main(mod, trace, tier, scratch_root):
             mod.run(trace, cx)
         except ctxmod.StopRun:
             pass
+        except Exception as e:
+            # the harness tripped over the consequences of something it had already reported (e.g. an input that a
+            # tool deleted): keep the violation, note the exception; without a recorded violation it stays a harness error
+            if not cx.violations:
+                raise
+            cx.log("harness", f"stopped after a recorded violation: {type(e).__name__}")
         cx.sim_s = max(cx.sim_s, cx.clock.elapsed)
         res = cx.result()
         if res["violations"] or trace.get("_want_trace"):
